@@ -88,6 +88,10 @@ def run(chk, repo, tier):
     from . import common as _common, c09 as _c09
     _common.mul_concat(chk, repo, 'C03-p')
     _c09.run(Remap(chk, {'C09-d': 'C03-p', 'C09-f': 'C03-p'}), repo, tier)
+    # a cropped sub-array is transformed about its own origin floor(n/2) on each axis (plus its offset): the kernel
+    # coordinate origins of the DFT
+    from . import c01 as _c01
+    _c01.run_check(Remap(chk, {'C01-d': 'C03-g', 'C01-a': 'C03-g'}), repo, tier)
 
     from .extra_rules import plane_slice_rule
     plane_slice_rule(chk, repo, 'C03-i')
